@@ -285,5 +285,12 @@ func VfC02Gen(r VfC02Rand, adv bool, gfMode bool) VfC02In {
 		in.Raw = true
 	}
 	in.Script = g.script(&in.Main, in.Before, in.After)
+	// half of the cases are handled by a second generation
+	switch k := g.r.Intn(4); {
+	case k == 2:
+		in.Gen = 1
+	case k == 3:
+		in.Gen = 2
+	}
 	return in
 }
